@@ -51,8 +51,8 @@ def instDistinctB (descs : List Desc) : Bool :=
 /-- the node keys phase 1 of Build uses (one per descriptor, one per group) are pairwise distinct -/
 def keysDistinctB (descs : List Desc) : Bool := decide (((graphInput descs).map (·.1)).Nodup)
 
-/-- constructor id 0 (recorded as the producer of registered instance values) belongs to no scoped registration -/
-def ctorZeroB (descs : List Desc) : Bool := descs.all fun d => !(d.ctor == 0) || !(d.life == .scoped)
+/-- constructor id 0 (recorded as the producer of registered instance values) is no registration's constructor -/
+def ctorZeroB (descs : List Desc) : Bool := descs.all fun d => !(d.ctor == 0)
 
 /-- names of the hypotheses that fail on `descs` (empty = all hold) -/
 def failedHyps (descs : List Desc) : List String :=
